@@ -468,6 +468,13 @@ def findLF : List Byte → Option Nat
   | [] => none
   | b :: r => if b = bLF then some 0 else (findLF r).map (· + 1)
 
+/-- the statement order this model implements for the PORT_ASCII loop, add_console_line's checks and the telnet store
+    (compared with the order read from the source text: `Props.statement_order_tie`) -/
+def asciiLoopOrderModel : List String :=
+  ["commitStart", "storeNul", "callback", "revalidate", "resetTest", "advance", "moveRest"]
+def consoleCheckOrderModel : List String := ["emptyTest", "makeRoomTest", "discard", "fitTest"]
+def telnetStoreOrderModel : List String := ["copyChars", "deadTest", "advanceEnd", "terminator", "cmdFlag"]
+
 inductive LoopEnd where
   | done        -- no further LF
   | aborted     -- process_input raised an error: get_user_data is left with what has been committed so far
@@ -624,6 +631,7 @@ def addConsoleLine (s : S) (bytes : List Byte) : Except String S :=
 /-! ### scripted runs (the case language of the harness) -/
 inductive Op where
   | iflagSingle
+  | iflagLine
   | send (bytes : List Byte)
   | read
   | chunk (bytes : List Byte)
@@ -685,6 +693,9 @@ def stepOp (o : Oracle) (r : Run) (op : Op) : Run :=
   | .iflagSingle =>
     if r.s.closed then r
     else r.add { r.s with dec := { r.s.dec with fl := { r.s.dec.fl with single := true } } } []
+  | .iflagLine =>
+    if r.s.closed then r
+    else r.add { r.s with dec := { r.s.dec with fl := { r.s.dec.fl with single := false } } } []
   | .read => doRead o r
   | .chunk b => doRead o { r with s := { r.s with sock := r.s.sock ++ b } }
   | .extract => (doExtract r).1
